@@ -351,6 +351,468 @@ def path_roles(f):
     return one("document_file"), one("document_archive"), ds
 
 
+# ---------------------------------------------------------------------------------------------------------------------------------------------------------------
+# O14.8 (F24) the offset table is published by a rename only / O14.9 (F25) a (re)created document file invalidates its offset table
+
+_REP = "/data/corpus/documents.json"  # representative data-file path on which the extracted path expressions are evaluated (minieval; no repository code runs)
+_RENAMES = ("os.rename", "os.replace", "shutil.move")
+_REMOVES = ("os.remove", "os.unlink")
+_EXISTS = ("os.path.exists", "os.path.isfile", "os.path.lexists")
+
+
+def subst(e, mapping):
+    """fresh copy of the expression e with the (loaded) names of `mapping` replaced by the mapped expressions — one pass, the replacements are not visited again."""
+
+    class S(ast.NodeTransformer):
+        def visit_Name(self, n):
+            return source.clone(mapping[n.id]) if isinstance(n.ctx, ast.Load) and n.id in mapping else n
+
+    return S().visit(source.clone(e))
+
+
+def own_params(f):
+    ps = params_of(f)
+    return ps[1:] if ps and ps[0] in ("self", "cls") else ps
+
+
+class TableRoles:
+    """Roles of io.FileOffsetTable, derived from its code: T = the attribute whose value __enter__ opens, D = the attribute holding the data file's path, the mode the file is opened with,
+    the constructor's parameter -> attribute map and the factories (name -> (function, {attribute: expression over the factory's parameters})). `final_expr(d)` is the name under which
+    the READING factory looks for the table of the data file denoted by the expression d — the name readers (skip_lines) depend on."""
+
+    def __init__(self, io_mod):
+        self.mod = io_mod
+        self.cls = FT = io_mod.cls("FileOffsetTable")
+        ent, self.init = method(io_mod, FT, "__enter__"), method(io_mod, FT, "__init__")
+        opens = [n for n in walk_body(ent) if isinstance(n, ast.Call) and dotted(n.func) == "open" and n.args and is_self_attr(n.args[0])]
+        if len(opens) != 1:
+            raise AnchorMissing("FileOffsetTable.__enter__: the open(self.<path attribute>, <mode>) call")
+        self.T = opens[0].args[0].attr
+        self.mode = arg_of(opens[0], 1, "mode")
+        ip = params(self.init, 3)
+        self.a_of_p = {n.value.id: n.targets[0].attr for n in walk_body(self.init)
+                       if isinstance(n, ast.Assign) and len(n.targets) == 1 and is_self_attr(n.targets[0]) and isinstance(n.value, ast.Name) and n.value.id in ip[1:]}
+        if self.T not in self.a_of_p.values() or ip[1] not in self.a_of_p:
+            raise AnchorMissing(f"FileOffsetTable.__init__: parameters stored in self.{self.T} / the data file attribute")
+        self.D = self.a_of_p[ip[1]]
+        self.factories = {}
+        for name, f in io_mod.methods(FT).items():
+            for r in [n for n in walk_body(f) if isinstance(n, ast.Return) and n.value is not None]:
+                v = returned(r)
+                if isinstance(v, ast.Call) and dotted(v.func) in ("cls", FT.name):
+                    self.factories[name] = (f, self.fields(v))
+        readers = [(f, fl) for f, fl in self.factories.values() if not self.writes(fl)]
+        if not readers:
+            raise AnchorMissing("FileOffsetTable: a factory that opens the table for reading")
+        self._readers = readers
+
+    def fields(self, ctor_call):
+        """{attribute: argument expression} of one FileOffsetTable(...) / cls(...) call."""
+        return {self.a_of_p[p]: e for p, e in source.bind_args(ctor_call, self.init).items() if p in self.a_of_p}
+
+    def writes(self, fields) -> bool:
+        """the table object built with these constructor arguments opens its file for writing."""
+        m = self.mode
+        if m is not None and is_self_attr(m):
+            m = fields.get(m.attr)
+        if m is None:
+            return False  # open() without a mode reads
+        if isinstance(m, ast.Constant) and isinstance(m.value, str):
+            return any(c in m.value for c in "wax+")
+        raise AnchorMissing(f"FileOffsetTable: the open mode `{u(m)}` is not a string constant")
+
+    def final_expr(self, data_expr):
+        f, fl = self._readers[0]
+        ps = own_params(f)
+        if len(ps) != 1 or self.T not in fl:
+            raise AnchorMissing("FileOffsetTable: reading factory with one data-file parameter")
+        return subst(fl[self.T], {ps[0]: data_expr})
+
+    def final(self, data_path=_REP):
+        """the table's final name for a concrete data-file path; every reading factory must agree on it."""
+        vals = set()
+        for f, fl in self._readers:
+            ps = own_params(f)
+            if len(ps) != 1 or self.T not in fl:
+                raise AnchorMissing("FileOffsetTable: reading factory with one data-file parameter")
+            try:
+                vals.add(ev(fl[self.T], {ps[0]: data_path}))
+            except CannotEval as x:
+                raise AnchorMissing(f"FileOffsetTable.{f.name}: the table name `{u(fl[self.T])}` cannot be evaluated: {x}")
+        if len(vals) != 1 or not all(isinstance(v, str) for v in vals):
+            raise AnchorMissing(f"FileOffsetTable: the reading factories disagree on the table's name: {sorted(map(str, vals))}")
+        return vals.pop()
+
+
+class PathFlow:
+    """The values a path expression can have at a statement of `fn`, as expressions over fn's parameters: single-assignment locals are replaced by their definitions (resolved where
+    they are defined), reads of <X>.<T> by the values of the assignments to that attribute that REACH the statement (reaching definitions on the CFG, exception edges included; the value
+    the object was created with is the first definition). Nothing is executed; the resulting expressions are evaluated by minieval on a representative data-file path."""
+
+    def __init__(self, fn, X, T, created, init_expr):
+        self.fn, self.X, self.T = fn, X, T
+        self.g = cfg_of(fn)
+        self.defs = local_defs(fn)
+        self.def_stmt = {n.targets[0].id: n for n in walk_body(fn) if isinstance(n, ast.Assign) and len(n.targets) == 1 and isinstance(n.targets[0], ast.Name) and n.targets[0].id in self.defs}
+        self.adefs = [(created, init_expr)] + [(n, n.value) for n in walk_body(fn) if isinstance(n, ast.Assign) and len(n.targets) == 1 and self.is_attr(n.targets[0])]
+
+    def is_attr(self, n):
+        return self.X is not None and isinstance(n, ast.Attribute) and n.attr == self.T and isinstance(n.value, ast.Name) and n.value.id == self.X
+
+    def opaque_stores(self):
+        """stores to <X>.<T> this model does not follow (augmented / tuple / multiple targets, setattr): the caller reports the function as not analysable."""
+        out = []
+        for n in walk_body(self.fn):
+            if isinstance(n, ast.AugAssign) and self.is_attr(n.target):
+                out.append(n)
+            elif isinstance(n, ast.Assign) and not (len(n.targets) == 1 and self.is_attr(n.targets[0])) and any(self.is_attr(x) and isinstance(x.ctx, ast.Store) for t in n.targets for x in ast.walk(t)):
+                out.append(n)
+            elif isinstance(n, ast.Call) and dotted(n.func) == "setattr" and n.args and isinstance(n.args[0], ast.Name) and n.args[0].id == self.X:
+                out.append(n)
+        return out
+
+    def nodes(self, stmt):
+        ns = [n for n in self.g.by_ast.get(id(stmt), []) if n.kind not in ("with_exit", "finally_entry", "join")]
+        if not ns:
+            ns = self.g.nodes_of(stmt)
+        return ns
+
+    def reaching(self, stmt):
+        st = stmt if isinstance(stmt, ast.stmt) else source.enclosing_stmt(stmt)
+        tn = self.nodes(st)
+        out = []
+        for s, v in self.adefs:
+            if s is st:
+                continue
+            others = [n for s2, _ in self.adefs if s2 is not s for n in self.nodes(s2)]
+            if any(self.g.path_exists(d, t, avoid=[o for o in others if o.id != t.id]) for d in self.nodes(s) for t in tn if d.id != t.id):
+                out.append((s, v))
+        return out
+
+    def resolve(self, e, stmt, depth=0):
+        """the alternatives for the value of expression e read at statement stmt, over parameters only (CannotEval when a chain is too deep / nothing reaches)."""
+        if depth > 8:
+            raise CannotEval(f"definition chain of `{u(e)[:50]}` is too deep")
+        alts = [source.clone(e)]
+        if any(self.is_attr(n) and isinstance(n.ctx, ast.Load) for n in ast.walk(e)):
+            vals = [r for s, v in self.reaching(stmt) for r in self.resolve(v, s, depth + 1)]
+            if not vals:
+                raise CannotEval(f"no assignment of {self.X}.{self.T} reaches line {getattr(stmt, 'lineno', '?')}")
+            flow = self
+
+            def put(a, val):
+                class R(ast.NodeTransformer):
+                    def visit_Attribute(self, n):
+                        return source.clone(val) if flow.is_attr(n) else self.generic_visit(n)
+
+                return R().visit(source.clone(a))
+
+            alts = [put(a, val) for a in alts for val in vals]
+        names = sorted({n.id for n in ast.walk(e) if isinstance(n, ast.Name) and isinstance(n.ctx, ast.Load) and n.id in self.defs and n.id != self.X})
+        for nm in names:
+            vals = self.resolve(self.defs[nm], self.def_stmt[nm], depth + 1)
+            alts = [subst(a, {nm: val}) for a in alts for val in vals]
+        if len(alts) > 16:
+            raise CannotEval(f"too many alternatives for `{u(e)[:50]}`")
+        return alts
+
+    def values(self, e, stmt, env):
+        out = set()
+        for a in self.resolve(e, stmt):
+            v = ev(a, dict(env))
+            if not isinstance(v, str):
+                raise CannotEval(f"`{u(e)[:50]}` does not evaluate to a path string")
+            out.add(v)
+        return out
+
+
+def calls_named(repo, name, mention=None):
+    """every call in the package whose callee's last name component is `name` (who-may-call by name) — only the modules whose text mentions `mention` (default: the name) are parsed."""
+    out = []
+    for p in repo.package_files():
+        if (mention or name) in repo.text(p):
+            out += [n for n in ast.walk(repo.module(p).tree) if isinstance(n, ast.Call) and last_attr(n.func) == name]
+    return out
+
+
+def writer_sites(repo, roles):
+    """[(call, {attribute: expression in the caller's terms})]: every call in the package, outside FileOffsetTable itself, that yields a FileOffsetTable opened for WRITING (a writing
+    factory, or the constructor with a write mode)."""
+    out = []
+    FT = roles.cls
+    for name, (f, fl) in roles.factories.items():
+        if not roles.writes(fl):
+            continue
+        for c in calls_named(repo, name):
+            d = dotted(c.func) or ""
+            if not d.endswith(f"{FT.name}.{name}") or source.enclosing_class(c) is FT:
+                continue
+            if roles.T not in fl:
+                raise AnchorMissing(f"FileOffsetTable.{name}: the constructor argument stored in self.{roles.T}")
+            b = source.bind_args(c, f)
+            out.append((c, {a: subst(e, b) for a, e in fl.items()}))
+    for c in calls_named(repo, FT.name):
+        if source.enclosing_class(c) is FT:
+            continue
+        fl = roles.fields(c)
+        if roles.T in fl and roles.writes(fl):
+            out.append((c, fl))
+    return out
+
+
+def offset_table_publication(chk, repo, io_mod, rid="O14.8"):
+    """F24: typestate of the offset table's FINAL name — the same protocol as the download (O14.1): written under another name, produced by one rename after the writer is done."""
+    chk.rule(rid, "offset-table build (io.prepare_file_offset_table and any other holder of a write-mode FileOffsetTable): the file is written under a temporary name that differs from the name "
+                  "the readers and the validity test use; that final name is produced only by rename(temporary, final), which runs only after the writing `with` block has completed normally "
+                  "(file closed, every line counted) and on every such path; no other code opens an offset-table name for writing", 5,
+             "an interrupted build (Ctrl-C, kill, UnicodeDecodeError on a truncated document file) leaves an unfinished table under the final name; it is newer than the data file, so the next run "
+             "takes it as valid, does not rebuild it and skips the line-count check: a truncated corpus is reported as ready (size undeclared / test mode)")
+    roles = TableRoles(io_mod)
+    final_rep = roles.final()
+    sites = writer_sites(repo, roles)
+    if not sites:
+        raise AnchorMissing("no code in the package obtains a FileOffsetTable opened for writing")
+    analysed = 0
+    for call, fields in sites:
+        fn = source.enclosing_func(call)
+        if fn is None:
+            chk.unknown(rid, "a write-mode FileOffsetTable is created outside a function", call)
+            continue
+        mod = source.module_of(call)
+        chk.use(mod)
+        where = f"{mod.relpath}:{source.qualname(fn)}"
+        par = source.parent(call)
+        X, created = None, None
+        if isinstance(par, ast.Assign) and len(par.targets) == 1 and isinstance(par.targets[0], ast.Name) and par.value is call:
+            X, created = par.targets[0].id, par
+        elif isinstance(par, ast.withitem):
+            created = source.enclosing_stmt(call)
+        else:
+            chk.unknown(rid, f"{where}: the write-mode FileOffsetTable is neither bound to a local nor used directly as a context manager (its use cannot be followed)", call)
+            continue
+        if X is not None and X not in local_defs(fn):
+            chk.unknown(rid, f"{where}: the local `{X}` holding the write-mode FileOffsetTable is bound more than once", call)
+            continue
+        flow = PathFlow(fn, X, roles.T, created, fields[roles.T])
+        # the object must stay in this function: every read of the local is an attribute access / method call on it or the context expression of a `with`
+        if X is not None:
+            esc = [n for n in walk_body(fn) if isinstance(n, ast.Name) and n.id == X and isinstance(n.ctx, ast.Load) and not isinstance(source.parent(n), (ast.Attribute, ast.withitem))]
+            if esc or flow.opaque_stores():
+                chk.unknown(rid, f"{where}: the write-mode FileOffsetTable `{X}` escapes (argument / return / alias) or its path attribute is stored in a form that is not followed", (esc or flow.opaque_stores())[0])
+                continue
+            withs = [n for n in walk_body(fn) if isinstance(n, (ast.With, ast.AsyncWith)) and any(isinstance(it.context_expr, ast.Name) and it.context_expr.id == X for it in n.items)]
+            als = {it.optional_vars.id for w in withs for it in w.items if isinstance(it.context_expr, ast.Name) and it.context_expr.id == X and isinstance(it.optional_vars, ast.Name)}
+            if any(isinstance(n, ast.Call) and isinstance(n.func, ast.Attribute) and n.func.attr == "__enter__" and u(n.func.value) == X for n in walk_body(fn)) \
+                    or any(isinstance(n, ast.Attribute) and n.attr == roles.T and isinstance(n.ctx, ast.Store) and isinstance(n.value, ast.Name) and n.value.id in als for n in walk_body(fn)):
+                chk.unknown(rid, f"{where}: `{X}.__enter__()` is called directly, or the path attribute is stored through the `with ... as` alias", call)
+                continue
+        else:
+            withs = [created]
+        if not withs:
+            continue  # created for writing but never opened here (e.g. only asked whether it is valid): nothing is written through it
+        analysed += 1
+        g = flow.g
+        # the data file the table belongs to, and hence the final name, in this function's terms; evaluated with the data-file parameter(s) := the representative path
+        env = {p: _REP for p in params_of(fn)}
+        try:
+            final = flow.values(roles.final_expr(fields[roles.D]), created, env) if roles.D in fields else {final_rep}
+            if len(final) != 1:
+                raise CannotEval(f"final name not unique: {sorted(map(str, final))}")
+            final = final.pop()
+            attr = expr(f"{X}.{roles.T}") if X is not None else fields[roles.T]
+            written = set()
+            for w in withs:
+                written |= flow.values(attr, w, env)
+            ren = []
+            for r in [n for n in walk_body(fn) if isinstance(n, ast.Call) and dotted(n.func) in _RENAMES]:
+                s_, d_ = arg_of(r, 0, "src"), arg_of(r, 1, "dst")
+                if s_ is None or d_ is None:
+                    raise CannotEval(f"arguments of `{short(r, 60)}`")
+                ren.append((r, flow.values(s_, r, env), flow.values(d_, r, env)))
+        except CannotEval as x:
+            chk.unknown(rid, f"{where}: a path expression of the offset-table build cannot be evaluated: {x}", call)
+            continue
+        ok = bool(written) and final not in written
+        chk.ob(rid, "the table is written under a temporary name, never under its final name", ok, withs[0],
+               f"opened for writing: {sorted(map(str, written))}; final name (readers, validity test): {final}" + ("" if ok else " — an interrupted build leaves an unfinished table that the next run trusts"),
+               key=f"{where}:offset-table-written-under-a-temporary-name")
+        pub = [(r, s_, d_) for r, s_, d_ in ren if final in d_]
+        done = [n for w in withs for n in g.by_ast.get(id(w), []) if n.kind == "with_exit"]
+        ok = bool(pub) and all(d_ == {final} and s_ and s_ <= written and final not in s_ for _, s_, d_ in pub)
+        chk.ob(rid, "the final name is produced by rename(temporary, final)", ok, pub[0][0] if pub else withs[0],
+               "; ".join(f"{short(r, 70)}: {sorted(map(str, s_))} -> {sorted(map(str, d_))}" for r, s_, d_ in pub) if pub else "no rename onto the final name: the table is written in place",
+               key=f"{where}:offset-table-published-by-rename")
+        ok = bool(pub) and bool(done) and all(g.dominated_by_nodes(n, done) for r, _, _ in pub for n in flow.nodes(source.enclosing_stmt(r)))
+        chk.ob(rid, "the rename runs only after the writing block has completed normally (table complete and closed)", ok, pub[0][0] if pub else withs[0],
+               "" if ok else ("the rename can be reached while the table is still being written, or after the build failed" if pub else "no rename onto the final name"),
+               key=f"{where}:offset-table-rename-after-complete-build")
+        ok = bool(pub) and bool(done) and all(g.must_pass(n, [x for r, _, _ in pub for x in flow.nodes(source.enclosing_stmt(r))], normal_only=True) for w in withs for n in flow.nodes(w))
+        chk.ob(rid, "a completed build is published on every normal path to the return", ok, pub[0][0] if pub else withs[0],
+               "" if ok else ("preparation can return without an offset table under the final name" if pub else "no rename onto the final name"), key=f"{where}:offset-table-published-on-every-normal-path")
+    if not analysed and not any(m.startswith(rid + ":") for m in chk.inconclusive):
+        raise AnchorMissing("no function opens a write-mode FileOffsetTable in a `with` block")
+    # no other write-open of an offset-table name (the name's suffix is derived from the reading factory, not spelled here)
+    suffix = final_rep[len(_REP):] if final_rep.startswith(_REP) and len(final_rep) > len(_REP) else None
+    if suffix is None:
+        raise AnchorMissing(f"offset table name `{final_rep}` is not <data file><suffix>")
+    bad = []
+    for c in calls_named(repo, "open", mention=suffix):
+        m_ = arg_of(c, 1, "mode")
+        if c.args and isinstance(m_, ast.Constant) and isinstance(m_.value, str) and any(ch in m_.value for ch in "wax+") \
+                and any(isinstance(x, ast.Constant) and isinstance(x.value, str) and x.value.endswith(suffix) for x in ast.walk(c.args[0])):
+            bad.append(c)
+    chk.ob(rid, f"no code opens a `*{suffix}` name for writing directly (FileOffsetTable.__enter__ is the only writer)", not bad, bad[0] if bad else roles.cls,
+           short(bad[0], 90) if bad else "", key=f"{io_mod.relpath}:offset-table:direct-write-open")
+    return roles
+
+
+def io_qualname(mod, d):
+    """the qualified name inside esrally/utils/io.py that the dotted callee text d denotes in module `mod` (through its imports), or None."""
+    if not d:
+        return None
+    head, _, rest = d.partition(".")
+    full = mod.imports.get(head)
+    if mod.relpath == _I and full is None:
+        return d
+    if full is None:
+        return None
+    full = full + ("." + rest if rest else "")
+    pre = _I[:-3].replace("/", ".") + "."
+    return full[len(pre):] if full.startswith(pre) else None
+
+
+def table_removers(io_mod, roles):
+    """{qualified name in io.py: parameter}: the functions that, on every normal path, remove the offset table (the name the readers open) of the data file given as that parameter —
+    os.remove / os.unlink of an expression that evaluates to the final name, or a call of another such function with the parameter."""
+    cands = {source.qualname(f): f for f in list(io_mod.tree.body) + list(roles.cls.body) if isinstance(f, source.FUNC_TYPES)}
+    out = {}
+    changed = True
+    while changed:
+        changed = False
+        for qn, f in cands.items():
+            if qn in out:
+                continue
+            g = cfg_of(f)
+            for p in own_params(f):
+                hits = []
+                for n in walk_body(f):
+                    if not (isinstance(n, ast.Call) and len(n.args) == 1 and not n.keywords):
+                        continue
+                    d = dotted(n.func) or ""
+                    if d in _REMOVES:
+                        try:
+                            if ev(n.args[0], {p: _REP}) == roles.final():
+                                hits.append(n)
+                        except CannotEval:
+                            pass
+                    elif (d in out or (d.startswith("cls.") and f"{roles.cls.name}.{d[4:]}" in out)) and isinstance(n.args[0], ast.Name) and n.args[0].id == p:
+                        hits.append(n)
+                hn = [x for h in hits for x in g.nodes_of(h)]
+                if hn and g.must_pass(g.entry, hn, normal_only=True):
+                    out[qn] = p
+                    changed = True
+                    break
+    return out
+
+
+def recreated_file_invalidates_table(chk, io_mod, ldr, roles, rid="O14.9"):
+    """F25: the mtime comparison cannot tell that a table belongs to the document file's predecessor (tarfile restores the archived mtime): whoever (re)creates the file removes the table."""
+    chk.rule(rid, "DocumentSetPreparator: every call that (re)creates the document file (decompressing into it, downloading onto it) is followed, on every normal path to the offset-table step, "
+                  "by the invalidation of an existing offset table of that file (its removal, or an mtime bump of the new file that makes the validity test reject it) — the table of the file's "
+                  "predecessor must not survive, whatever modification time the new file carries", 4,
+             "a document re-extracted from an updated .tar / .tar.gz / .tgz / .tar.bz2 archive carries the archived mtime, older than the offset table of its predecessor: the stale table counts "
+             "as valid, is not rebuilt, the line count is not checked and bulk clients seek to the old file's offsets (mid-document starts, wrong / duplicated documents)")
+    final = roles.final()
+    removers = table_removers(io_mod, roles)
+    chk.ob(rid, "io offers a function that removes the very name the readers open (used for invalidation and after a line-count mismatch)", bool(removers), roles.cls,
+           f"removers: {sorted(removers)}; table name for {_REP}: {final}", key=f"{_I}:offset-table:remover-agrees-with-readers")
+    P = ldr.cls("DocumentSetPreparator")
+
+    def is_removal(c, names, env_of):
+        """the call c removes the offset table of the file named by one of `names` (env_of(e) evaluates a path expression with that file := the representative path)."""
+        if not isinstance(c, ast.Call) or len(c.args) != 1:
+            return False
+        d = dotted(c.func) or ""
+        if d in _REMOVES:
+            try:
+                return env_of(c.args[0]) == final
+            except CannotEval:
+                return False
+        return io_qualname(ldr, d) in removers and isinstance(c.args[0], ast.Name) and c.args[0].id in names
+
+    def exists_atom(n, env_of):
+        if isinstance(n, ast.Call) and dotted(n.func) in _EXISTS and len(n.args) == 1:
+            try:
+                return True if env_of(n.args[0]) == final else None
+            except CannotEval:
+                return None
+        return None
+
+    def helper_invalidates(h):
+        """the method h(self, p), evaluated for the case 'a (stale) table of p exists' (every existence test of the table's name is true): completes normally having removed the table."""
+        ps = own_params(h)
+        if len(ps) != 1:
+            return False
+        hdefs = {k: v for k, v in local_defs(h).items() if k != ps[0]}
+        env_of = lambda e: ev(source.inline_node(e, hdefs), {ps[0]: _REP})  # noqa: E731 - single-assignment locals (`table = p + ".offset"`) are looked through
+
+        def on_stmt(s_, env, b):
+            return "skip" if is_logging_stmt(s_) else None
+
+        try:
+            o = tables.decide(h.body, lambda n, env: exists_atom(n, env_of), {}, on_stmt=on_stmt)
+        except (tables.Unsupported, UnknownAtom, CannotEval):
+            return False
+        return o.kind in ("fallthrough", "return") and any(is_removal(c, {ps[0]}, env_of) for c in o.effects)
+
+    helpers = {n: f for n, f in ldr.methods(P).items() if helper_invalidates(f)}
+    for name in ("prepare_document_set", "prepare_bundled_document_set"):
+        f = method(ldr, P, name)
+        g = cfg_of(f)
+        docv, _, _ = path_roles(f)
+        names = {docv}
+        for _ in range(3):  # locals that may denote the document file (`target_path = doc_path` in one arm)
+            names |= {n.targets[0].id for n in walk_body(f) if isinstance(n, ast.Assign) and len(n.targets) == 1 and isinstance(n.targets[0], ast.Name) and isinstance(n.value, ast.Name) and n.value.id in names}
+        fdefs = {k: v for k, v in local_defs(f).items() if k not in names}
+        env_of = lambda e: eval_with(source.inline_node(e, fdefs), {docv: _REP})  # noqa: E731
+        creators = [c for c in walk_body(f) if isinstance(c, ast.Call) and isinstance(c.func, ast.Attribute) and c.func.attr in ("decompress", "download") and is_self_attr(c.func.value)
+                    and any(isinstance(a, ast.Name) and a.id in names for a in c.args)]
+        builds = [c for c in walk_body(f) if isinstance(c, ast.Call) and last_attr(c.func) == "create_file_offset_table" and c.args and isinstance(c.args[0], ast.Name) and c.args[0].id in names]
+        if not creators or not builds:
+            raise AnchorMissing(f"{name}: calls that (re)create the document file `{docv}` (decompress / download) and the offset-table step")
+        # invalidation points: a removal of the table of the document file — direct, through a helper method of the class, or an `if <the table exists>: <removal>` statement
+        inv = []
+        for n in walk_body(f):
+            if isinstance(n, ast.Expr) and isinstance(n.value, ast.Call):
+                c = n.value
+                direct = is_removal(c, names, env_of)
+                helper = isinstance(c.func, ast.Attribute) and is_self_attr(c.func) and c.func.attr in helpers and len(c.args) == 1 and isinstance(c.args[0], ast.Name) and c.args[0].id in names
+                # os.utime(<document file>) without explicit times makes the file newer than any existing table: the validity test then rejects the table (same effect as removing it)
+                touch = dotted(c.func) == "os.utime" and len(c.args) == 1 and isinstance(c.args[0], ast.Name) and c.args[0].id in names and all(k.arg == "times" and source.is_const(k.value) and k.value.value is None for k in c.keywords)
+                if helper or direct or touch:
+                    inv.append(n)
+            elif isinstance(n, ast.If) and exists_atom(n.test, env_of) and any(isinstance(s_, ast.Expr) and is_removal(s_.value, names, env_of) for s_ in n.body):
+                inv.append(n)
+        inv_nodes = [x for n in inv for x in g.by_ast.get(id(n), [])]
+        try:
+            build_nodes = [g.node_of(b) for b in builds]
+            creator_nodes = [g.node_of(c) for c in creators]
+        except KeyError as x:
+            raise AnchorMissing(f"{name}: {x}")
+        for c, cn in zip(creators, creator_nodes):
+            ok = bool(inv_nodes) and g.must_pass(cn, inv_nodes, exits=build_nodes, normal_only=True)
+            path = None
+            if not ok:
+                for b in build_nodes:
+                    p_ = g.find_path(cn, b, avoid=inv_nodes, edge_ok=g.normal_edge)
+                    if p_:
+                        path = g.describe_path(p_)
+                        break
+            chk.ob(rid, f"{name}: `{c.func.attr}` into the document file is followed by the invalidation of its old offset table before the table step", ok, c,
+                   short(c, 80) + ("" if ok else " — the offset-table step is reached with the predecessor's table still in place: " + " ".join(path or [])), path=path,
+                   key=f"{_L}:DocumentSetPreparator.{name}:{c.func.attr}:invalidates-offset-table")
+
+
 def run(chk):
     repo = chk.repo
     net, io_, ldr = repo.module(_N), repo.module(_I), repo.module(_L)
@@ -359,9 +821,11 @@ def run(chk):
         "Decides the preparation skeleton: downloads write only to a temporary name which is renamed once, behind a size check whose mismatch edge removes it and raises, with a broad "
         "handler that removes it and re-raises; HTTP statuses evaluated over a finite domain (every non-2xx raises); retry loop range(N+1) for the two protocol errors with re-raise on "
         "the last index; existence and size verification after download and after decompression; the state loop exits only under present-and-expected-size and is followed by the offset "
-        "table build whose line-count check uses `is not None`; exhaustive archive dispatch with the library fallback on every path; offset table writer/reader protocol."
+        "table build whose line-count check uses `is not None`; exhaustive archive dispatch with the library fallback on every path; offset table writer/reader protocol; the offset table is "
+        "written under a temporary name and published by one rename after the writing block completed (path expressions evaluated on a representative data-file path); every call that "
+        "(re)creates the document file is followed by the removal of its old offset table before the table step."
     )
-    chk.not_decided = "archive contents, real network behaviour, crash points inside library calls, atomicity of the offset-table write (advisory O14.7: no failing history could be produced)."
+    chk.not_decided = "archive contents, real network behaviour, crash points inside library calls (a kill between two statements of the offset-table build is covered by the rename protocol O14.8; a torn write inside os.replace is not)."
 
     # ---- O14.1 download is atomic ---------------------------------------------------------------------------------------------------------
     chk.rule("O14.1", "net.download: every writer receives the temporary path, never the final one; the final name is produced by a single rename(tmp, final) dominated by the size comparison "
@@ -742,11 +1206,14 @@ def run(chk):
     # ---- O14.6 offset table protocol ---------------------------------------------------------------------------------------------------------------------------------
     offset_table_protocol(chk, io_, "O14.6")
 
-    # ---- O14.7 advisory ---------------------------------------------------------------------------------------------------------------------------------------------
+    # ---- O14.8 the offset table is published by rename only (F24) / O14.9 a (re)created document file invalidates its table (F25) ------------------------------------
+    roles = offset_table_publication(chk, repo, io_, "O14.8")
+    recreated_file_invalidates_table(chk, io_, ldr, roles, "O14.9")
+
+    # ---- O14.7 advisory (superseded by O14.8 once a failing history was shown, F24; kept for a tree on which no rename exists anywhere) -----------------------------------
     cf_ = io_.methods(io_.cls("FileOffsetTable")).get("create_for_data_file")
-    if cf_ is not None and not any(isinstance(n, ast.Call) and dotted(n.func) in ("os.rename", "os.replace") for n in ast.walk(io_.cls("FileOffsetTable"))):
-        chk.adv("O14.7", "the offset table (whose mtime later means 'valid') is written under its final name, not via temp + rename; an interrupted build leaves a shorter but well-formed table "
-                "(no failing history could be produced: a shorter table still positions readers correctly)", cf_)
+    if cf_ is not None and not any(isinstance(n, ast.Call) and dotted(n.func) in _RENAMES for n in ast.walk(io_.tree)):
+        chk.adv("O14.7", "the offset table (whose mtime later means 'valid') is written under its final name, not via temp + rename (see O14.8)", cf_)
 
 
 from sa.selftest import V  # noqa: E402
@@ -767,7 +1234,7 @@ VARIANTS = [
     V("seed m3: library fallback only when the tool is missing", "break", _I, "            \"%s not found in PATH. Using standard library, decompression will take longer.\", decompressor_bin\n        )\n\n    _do_decompress_manually_with_lib(target_directory, filename, decompressor_lib(filename))",
       "            \"%s not found in PATH. Using standard library, decompression will take longer.\", decompressor_bin\n        )\n        _do_decompress_manually_with_lib(target_directory, filename, decompressor_lib(filename))", "O14.5"),
     V("seed m1: character offsets instead of tell()", "break", _I, "                        file_offset_table.add_offset(line_number, data_file.tell())", "                        file_offset_table.add_offset(line_number, line_number * len(line))", "O14.6"),
-    V("offset recorded before the increment", "break", _I, "                    line_number += 1\n                    if line_number % 50000 == 0:\n                        file_offset_table.add_offset(line_number, data_file.tell())", "                    if line_number % 50000 == 0:\n                        file_offset_table.add_offset(line_number, data_file.tell())\n                    line_number += 1", "O14.6"),
+    V("offset recorded before the increment", "break", _I, "                        line_number += 1\n                        if line_number % 50000 == 0:\n                            file_offset_table.add_offset(line_number, data_file.tell())", "                        if line_number % 50000 == 0:\n                            file_offset_table.add_offset(line_number, data_file.tell())\n                        line_number += 1", "O14.6"),
     V("reader uses <", "break", _I, "            if line_number <= target_line_number:", "            if line_number < target_line_number:", "O14.6"),
     V("writer swaps the fields", "break", _I, "        print(f\"{line_number};{offset}\", file=self.offset_file)", "        print(f\"{offset};{line_number}\", file=self.offset_file)", "O14.6"),
     V("size check by truthiness (a declared size of 0 is skipped)", "break", _N, "    if expected_size_in_bytes is not None and download_size != expected_size_in_bytes:", "    if expected_size_in_bytes and download_size != expected_size_in_bytes:", "O14.1"),
@@ -780,8 +1247,45 @@ VARIANTS = [
     V("has_expected_size accepts larger files", "break", _L, "        return expected_size is None or os.path.getsize(file_name) == expected_size", "        return expected_size is None or os.path.getsize(file_name) >= expected_size", "O14.4"),
     V("line count compared without the None guard", "break", _L, "        if lines_read is not None and lines_read != expected_number_of_lines:", "        if lines_read != expected_number_of_lines:", "O14.4"),
     V("download pair swapped", "break", _L, "                    target_path = archive_path\n                    expected_size = document_set.compressed_size_in_bytes", "                    target_path = archive_path\n                    expected_size = document_set.uncompressed_size_in_bytes", "O14.4"),
-    V("empty-read test changed", "break", _I, "                    if len(line) == 0:\n                        break", "                    if len(line) == 1:\n                        break", "O14.6"),
+    V("empty-read test changed", "break", _I, "                        if len(line) == 0:\n                            break", "                        if len(line) == 1:\n                            break", "O14.6"),
     V("reader unpacks the fields in the other order", "break", _I, "            line_number, offset_in_bytes = (int(i) for i in line.strip().split(\";\"))", "            offset_in_bytes, line_number = (int(i) for i in line.strip().split(\";\"))", "O14.6"),
+    # F24 (repair 98c805c): the offset table is built under a temporary name and published by rename
+    V("F24: textual revert of 98c805c (table written under its final name)", "break", _I,
+      "        final_path = file_offset_table.offset_table_path\n        file_offset_table.offset_table_path = f\"{final_path}.tmp\"\n        try:\n            with file_offset_table:\n                with open(data_file_path, encoding=\"utf-8\") as data_file:\n                    while True:\n                        line = data_file.readline()\n                        if len(line) == 0:\n                            break\n                        line_number += 1\n                        if line_number % 50000 == 0:\n                            file_offset_table.add_offset(line_number, data_file.tell())\n            os.replace(file_offset_table.offset_table_path, final_path)\n        except BaseException:\n            if os.path.exists(file_offset_table.offset_table_path):\n                os.remove(file_offset_table.offset_table_path)\n            raise\n        finally:\n            file_offset_table.offset_table_path = final_path\n",
+      "        with file_offset_table:\n            with open(data_file_path, encoding=\"utf-8\") as data_file:\n                while True:\n                    line = data_file.readline()\n                    if len(line) == 0:\n                        break\n                    line_number += 1\n                    if line_number % 50000 == 0:\n                        file_offset_table.add_offset(line_number, data_file.tell())\n", "O14.8"),
+    V("F24: the temporary name is never installed (the `with` opens the final name; the rename is a no-op)", "break", _I, "        file_offset_table.offset_table_path = f\"{final_path}.tmp\"\n", "        tmp_path = f\"{final_path}.tmp\"\n", "O14.8"),
+    V("F24: the 'temporary' name is the final name", "break", _I, "        file_offset_table.offset_table_path = f\"{final_path}.tmp\"\n", "        file_offset_table.offset_table_path = f\"{final_path}\"\n", "O14.8"),
+    V("F24: published before the table is complete (rename inside the writing block)", "break", _I,
+      "                            file_offset_table.add_offset(line_number, data_file.tell())\n            os.replace(file_offset_table.offset_table_path, final_path)\n",
+      "                            file_offset_table.add_offset(line_number, data_file.tell())\n                os.replace(file_offset_table.offset_table_path, final_path)\n", "O14.8"),
+    V("F24: published by the failure handler too (an aborted build is renamed onto the final name)", "break", _I,
+      "            if os.path.exists(file_offset_table.offset_table_path):\n                os.remove(file_offset_table.offset_table_path)\n            raise\n",
+      "            if os.path.exists(file_offset_table.offset_table_path):\n                os.replace(file_offset_table.offset_table_path, final_path)\n            raise\n", "O14.8"),
+    V("F24: the path attribute is reset to the final name before the `with` opens it", "break", _I,
+      "        file_offset_table.offset_table_path = f\"{final_path}.tmp\"\n        try:\n", "        file_offset_table.offset_table_path = f\"{final_path}.tmp\"\n        tmp_path = file_offset_table.offset_table_path\n        file_offset_table.offset_table_path = final_path\n        try:\n", "O14.8"),
+    V("F24: a second writer opens the .offset name directly", "break", _I, "        console.println(\"[OK]\")\n        return line_number\n",
+      "        console.println(\"[OK]\")\n        with open(f\"{data_file_path}.offset\", \"at\") as extra:\n            extra.write(\"\")\n        return line_number\n", "O14.8"),
+    # F25 (repair d8403e6): a (re)created document file invalidates its offset table
+    V("F25: no invalidation after decompress (prepare_document_set)", "break", _L,
+      "                self.decompressor.decompress(archive_path, doc_path, document_set.uncompressed_size_in_bytes)\n                self.invalidate_file_offset_table(doc_path)\n            else:\n                if document_set.has_compressed_corpus():",
+      "                self.decompressor.decompress(archive_path, doc_path, document_set.uncompressed_size_in_bytes)\n            else:\n                if document_set.has_compressed_corpus():", "O14.9"),
+    V("F25: no invalidation after download", "break", _L,
+      "                    self.downloader.download(document_set.base_url, target_path, expected_size)\n                    self.invalidate_file_offset_table(doc_path)\n",
+      "                    self.downloader.download(document_set.base_url, target_path, expected_size)\n", "O14.9"),
+    V("F25: no invalidation after decompress (bundled)", "break", _L,
+      "                    self.decompressor.decompress(archive_path, doc_path, document_set.uncompressed_size_in_bytes)\n                    self.invalidate_file_offset_table(doc_path)\n                else:\n                    # treat this is an error",
+      "                    self.decompressor.decompress(archive_path, doc_path, document_set.uncompressed_size_in_bytes)\n                else:\n                    # treat this is an error", "O14.9"),
+    V("F25: the helper removes the table only when there is none", "break", _L, "        if os.path.exists(f\"{document_file_path}.offset\"):\n            io.remove_file_offset_table(document_file_path)",
+      "        if not os.path.exists(f\"{document_file_path}.offset\"):\n            io.remove_file_offset_table(document_file_path)", "O14.9"),
+    V("F25: the helper looks for another file name", "break", _L, "        if os.path.exists(f\"{document_file_path}.offset\"):\n            io.remove_file_offset_table(document_file_path)",
+      "        if os.path.exists(f\"{document_file_path}.offsets\"):\n            io.remove_file_offset_table(document_file_path)", "O14.9"),
+    V("F25: the archive's table is invalidated instead of the document's", "break", _L,
+      "                self.decompressor.decompress(archive_path, doc_path, document_set.uncompressed_size_in_bytes)\n                self.invalidate_file_offset_table(doc_path)\n            else:\n                if document_set.has_compressed_corpus():",
+      "                self.decompressor.decompress(archive_path, doc_path, document_set.uncompressed_size_in_bytes)\n                self.invalidate_file_offset_table(archive_path)\n            else:\n                if document_set.has_compressed_corpus():", "O14.9"),
+    V("F25: invalidation only on the failure path of the download", "break", _L,
+      "                    self.downloader.download(document_set.base_url, target_path, expected_size)\n                    self.invalidate_file_offset_table(doc_path)\n                except exceptions.DataError as e:\n",
+      "                    self.downloader.download(document_set.base_url, target_path, expected_size)\n                except exceptions.DataError as e:\n                    self.invalidate_file_offset_table(doc_path)\n", "O14.9"),
+    V("F25: io.remove_file_offset_table removes another name than the readers open", "break", _I, "        os.remove(f\"{data_file_path}.offset\")", "        os.remove(f\"{data_file_path}.offsets\")", "O14.9"),
     # preserving
     V("size check with inverted arms (rename in the true arm)", "keep", _N,
       "    if expected_size_in_bytes is not None and download_size != expected_size_in_bytes:\n        if os.path.isfile(tmp_data_set_path):\n            os.remove(tmp_data_set_path)\n        raise exceptions.DataError(\n            \"Download of [%s] is corrupt. Downloaded [%d] bytes but [%d] bytes are expected. Please retry.\"\n            % (local_path, download_size, expected_size_in_bytes)\n        )\n    os.rename(tmp_data_set_path, local_path)",
@@ -799,5 +1303,28 @@ VARIANTS = [
     V("extension via subscript, renamed", "keep", _I, "    _, extension = splitext(zip_name)\n    if extension == \".zip\":", "    ext = splitext(zip_name)[1]\n    extension = ext\n    if ext == \".zip\":"),
     V("os.replace", "keep", _N, "    os.rename(tmp_data_set_path, local_path)", "    os.replace(tmp_data_set_path, local_path)"),
     V(">= 300", "keep", _N, "        if r.status > 299:", "        if r.status >= 300:"),
-    V("not line", "keep", _I, "                    if len(line) == 0:\n                        break\n                    line_number += 1", "                    if not line:\n                        break\n                    line_number += 1"),
+    V("not line", "keep", _I, "                        if len(line) == 0:\n                            break\n                        line_number += 1", "                        if not line:\n                            break\n                        line_number += 1"),
+    # F24 respelled
+    V("F24 respelled: os.rename instead of os.replace", "keep", _I, "            os.replace(file_offset_table.offset_table_path, final_path)", "            os.rename(file_offset_table.offset_table_path, final_path)"),
+    [V("F24 respelled: temporary name in a local, `+` instead of an f-string, other suffix", "keep", _I, "        file_offset_table.offset_table_path = f\"{final_path}.tmp\"\n", "        tmp_path = final_path + \".part\"\n        file_offset_table.offset_table_path = tmp_path\n"),
+     V("", "keep", _I, "            os.replace(file_offset_table.offset_table_path, final_path)", "            os.replace(tmp_path, final_path)"),
+     V("", "keep", _I, "            if os.path.exists(file_offset_table.offset_table_path):\n                os.remove(file_offset_table.offset_table_path)", "            if os.path.exists(tmp_path):\n                os.remove(tmp_path)")],
+    V("F24 respelled: a separate table object built on the temporary name (no attribute juggling)", "keep", _I,
+      "        final_path = file_offset_table.offset_table_path\n        file_offset_table.offset_table_path = f\"{final_path}.tmp\"\n        try:\n            with file_offset_table:\n                with open(data_file_path, encoding=\"utf-8\") as data_file:\n                    while True:\n                        line = data_file.readline()\n                        if len(line) == 0:\n                            break\n                        line_number += 1\n                        if line_number % 50000 == 0:\n                            file_offset_table.add_offset(line_number, data_file.tell())\n            os.replace(file_offset_table.offset_table_path, final_path)\n        except BaseException:\n            if os.path.exists(file_offset_table.offset_table_path):\n                os.remove(file_offset_table.offset_table_path)\n            raise\n        finally:\n            file_offset_table.offset_table_path = final_path\n",
+      "        tmp_path = data_file_path + \".offset.tmp\"\n        building = FileOffsetTable(data_file_path, tmp_path, \"wt\")\n        try:\n            with building:\n                with open(data_file_path, encoding=\"utf-8\") as data_file:\n                    while True:\n                        line = data_file.readline()\n                        if len(line) == 0:\n                            break\n                        line_number += 1\n                        if line_number % 50000 == 0:\n                            building.add_offset(line_number, data_file.tell())\n        except BaseException:\n            if os.path.exists(tmp_path):\n                os.remove(tmp_path)\n            raise\n        os.replace(tmp_path, f\"{data_file_path}.offset\")\n"),
+    V("F24 respelled: the failure handler does not test for existence first", "keep", _I,
+      "            if os.path.exists(file_offset_table.offset_table_path):\n                os.remove(file_offset_table.offset_table_path)\n            raise\n",
+      "            try:\n                os.remove(file_offset_table.offset_table_path)\n            except FileNotFoundError:\n                pass\n            raise\n"),
+    # F25 respelled
+    V("F25 respelled: invalidation written out after decompress", "keep", _L,
+      "                self.decompressor.decompress(archive_path, doc_path, document_set.uncompressed_size_in_bytes)\n                self.invalidate_file_offset_table(doc_path)\n            else:\n                if document_set.has_compressed_corpus():",
+      "                self.decompressor.decompress(archive_path, doc_path, document_set.uncompressed_size_in_bytes)\n                if os.path.isfile(doc_path + \".offset\"):\n                    io.remove_file_offset_table(doc_path)\n            else:\n                if document_set.has_compressed_corpus():"),
+    V("F25 respelled: helper with isfile / FileOffsetTable.remove / early return", "keep", _L, "        if os.path.exists(f\"{document_file_path}.offset\"):\n            io.remove_file_offset_table(document_file_path)",
+      "        table = document_file_path + \".offset\"\n        if not os.path.isfile(table):\n            return\n        io.FileOffsetTable.remove(document_file_path)"),
+    V("F25 respelled: invalidation after the try statement of the download", "keep", _L,
+      "                    self.downloader.download(document_set.base_url, target_path, expected_size)\n                    self.invalidate_file_offset_table(doc_path)\n                except exceptions.DataError as e:\n                    if e.message == \"Cannot download data because no base URL is provided.\" and self.is_locally_available(target_path):\n                        raise exceptions.DataError(\n                            f\"[{target_path}] is present but does not have the expected \"\n                            f\"size of [{expected_size}] bytes and it cannot be downloaded \"\n                            f\"because no base URL is provided.\"\n                        ) from None\n                    raise\n",
+      "                    self.downloader.download(document_set.base_url, target_path, expected_size)\n                except exceptions.DataError as e:\n                    if e.message == \"Cannot download data because no base URL is provided.\" and self.is_locally_available(target_path):\n                        raise exceptions.DataError(\n                            f\"[{target_path}] is present but does not have the expected \"\n                            f\"size of [{expected_size}] bytes and it cannot be downloaded \"\n                            f\"because no base URL is provided.\"\n                        ) from None\n                    raise\n                self.invalidate_file_offset_table(target_path)\n"),
+    V("F25 respelled: the downloaded target's table is invalidated (target is the document file whenever the download creates it)", "keep", _L,
+      "                    self.downloader.download(document_set.base_url, target_path, expected_size)\n                    self.invalidate_file_offset_table(doc_path)\n",
+      "                    self.downloader.download(document_set.base_url, target_path, expected_size)\n                    self.invalidate_file_offset_table(target_path)\n"),
 ]
